@@ -354,6 +354,10 @@ func (r Wrapper) getPresentationDefinitionFromRequest(ctx context.Context, param
 			return nil, &oauth.OAuth2Error{Code: oauth.InvalidRequest, Description: "presentation_definition and presentation_definition_uri are mutually exclusive"}
 		}
 		err = json.Unmarshal([]byte(pdString), &presentationDefinition)
+		if err == nil && presentationDefinition == nil {
+			// JSON null
+			err = errors.New("presentation_definition is null")
+		}
 		if err != nil {
 			return nil, &oauth.OAuth2Error{Code: oauth.InvalidRequest, Description: "invalid presentation_definition", InternalError: err}
 		}
